@@ -532,6 +532,12 @@ def index(base, key):
     a = base.single_atom() if isinstance(base, Poly) else None
     if a is None:
         a = ('val', base)
+    if a[0] == 'app' and a[1] == 'listcomp' and len(a[2]) == 2 and isinstance(key, Poly) and isinstance(a[2][0], Poly):
+        # [body(i) for i in range(n)][k] = body(k)
+        src = a[2][1].single_atom() if isinstance(a[2][1], Poly) else None
+        its = {x for x in value_atoms(a[2][0]) if x[0] == 'iter'}
+        if src is not None and src[0] == 'app' and src[1] in ('range', 'arange') and len(src[2]) == 1 and len(its) == 1:
+            return subst_value(a[2][0], {next(iter(its)): key})
     if a[0] == 'app' and a[1] == 'setitem' and len(a[2]) == 3 and a[2][1] == key and isinstance(a[2][2], Poly) \
             and isinstance(key, (Poly, Slice, Tup)):
         return a[2][2]            # read back what was just stored under the same key
@@ -693,6 +699,30 @@ def subst_atom(a, mapping):
             return ceil(args[0])
         return Poly.atom(('app', name, args))
     return Poly.atom((a[0],) + new)
+
+
+def iter_count(it):
+    """Number of iterations of `for ... in it` as a term, when the construction of `it` shows it."""
+    if isinstance(it, Tup):
+        return Poly.const(len(it))
+    a = it.single_atom() if isinstance(it, Poly) else None
+    if a is None or a[0] != 'app':
+        return None
+    if a[1] in ('range', 'arange'):
+        args = [x for x in a[2] if isinstance(x, Poly)]
+        if len(args) == 1:
+            return args[0]
+        if len(args) == 2:
+            return args[1] - args[0]
+        return None
+    if a[1] in ('enumerate', 'listcomp', 'genexp', 'reversed', 'sorted', 'list', 'tuple'):
+        src = a[2][-1] if a[1] in ('listcomp', 'genexp') else a[2][0]
+        return iter_count(src) if isinstance(src, (Poly, Tup)) else None
+    if a[1] == 'zip':
+        ns = [iter_count(x) for x in a[2] if isinstance(x, (Poly, Tup))]
+        ns = [n for n in ns if n is not None]
+        return ns[0] if len(ns) == 1 or (ns and all(n == ns[0] for n in ns)) else None
+    return None
 
 
 def strip_apps(v, names=('copy', 'cast', 'deepcopy', 'shallowcopy', 'm:copy')):
